@@ -183,7 +183,14 @@ func (s *ShutdownScenario) Run(tmp string, r *rng.R) {
 			_, _ = c.View(ctx, "dd", "v", p)
 		})
 	}
-	expiring := has("expiry") || has("touch")
+	expiring := has("expiry") || has("touch") || has("mass-expiry")
+	if has("mass-expiry") {
+		// many documents share one deadline, so that the expiration run is long enough for a shutdown to land inside it
+		exp := uint32(time.Now().Unix()) + 1
+		for i := 0; i < 500; i++ {
+			_ = cols[0][i%2].SetRaw(fmt.Sprintf("m%d", i), exp, nil, []byte("x"))
+		}
+	}
 	if has("expiry") {
 		exp := uint32(time.Now().Unix()) + 1
 		for i := 0; i < 4; i++ {
